@@ -755,3 +755,10 @@ silent("c07-s-hash-via-local", "C07", TERMS,
        "    def __hash__(self):\n        return id(self)\n", "    def __hash__(self):\n        ident = id(self)\n        return ident\n")
 silent("c07-s-reduce-via-locals", "C07", TERMS,
        "        return type(self).__origin__, self._ast_values\n", "        cls = type(self).__origin__\n        args = self._ast_values\n        return cls, args\n")
+
+
+# `return EXPR` -> `_ret = EXPR; return _ret` in the anchor functions (behaviour-preserving)
+for _v in list(V):
+    if _v.get("transform") and _v["transform"][0] == "rename_locals":
+        V.append(dict(id=f"{_v['prop'].lower()}-s-return-via-temp:{_v['transform'][2]}", prop=_v["prop"], kind="silent",
+                      transform=("return_via_temp", _v["transform"][1], _v["transform"][2])))
